@@ -15,6 +15,9 @@ ASSUMPTIONS = [
     "block_roundtrip uses the transaction codec of C05/C04 (Model/Tx.v, theorem tx_roundtrip) and is also proved for any "
     "parser satisfying the codec law; block_deser's fuel theorem assumes the parser consumes >= 1 byte per transaction",
     "negative block heights (outside the quantifier) are modelled as an error of unspecified class",
+    "the functions are pure: histories of calls (op `seq`) are judged call by call by the history-free model, with every "
+    "mutable object the library returned emptied in place by the harness right after it was copied; `bits blockchain "
+    "[0] [--decode] [-H]` and `bits mine --limit 1` (RPC stubbed) are judged by the model of the library call they wrap",
     "modelled, not verified: blockchain.py (merkle_root, block_header, block_ser, block_header_deser, block_deser), "
     "tx.py (coinbase_txin, coinbase_tx and the serialisers they call), the block-assembly lines of integrations.mine_block "
     "(RPC, clock and nonce search stubbed/not modelled)",
